@@ -1,0 +1,59 @@
+//! An in-memory `PackRecipient` (verification only, `--cfg jubako_verif`).
+//! `PackRecipient` is sealed, so it has to live in the crate.
+
+use super::private::Sealed;
+use super::{MaybeFileReader, PackRecipient, Result};
+use crate::bases::*;
+use camino::Utf8PathBuf;
+use std::io::{self, Cursor, Read, Seek, Write};
+
+#[derive(Debug, Default)]
+pub struct MemRecipient(Cursor<Vec<u8>>);
+
+impl MemRecipient {
+    pub fn new() -> Box<Self> {
+        Box::new(Self(Cursor::new(Vec::new())))
+    }
+
+    pub fn into_bytes(self) -> Vec<u8> {
+        self.0.into_inner()
+    }
+}
+
+impl Seek for MemRecipient {
+    fn seek(&mut self, pos: io::SeekFrom) -> IoResult<u64> {
+        self.0.seek(pos)
+    }
+}
+
+impl Write for MemRecipient {
+    fn write(&mut self, buf: &[u8]) -> IoResult<usize> {
+        self.0.write(buf)
+    }
+    fn flush(&mut self) -> IoResult<()> {
+        self.0.flush()
+    }
+}
+
+impl Read for MemRecipient {
+    fn read(&mut self, buf: &mut [u8]) -> IoResult<usize> {
+        self.0.read(buf)
+    }
+}
+
+impl OutStream for MemRecipient {
+    fn copy(
+        &mut self,
+        reader: Box<dyn crate::creator::InputReader>,
+    ) -> IoResult<(u64, MaybeFileReader)> {
+        self.0.copy(reader)
+    }
+}
+
+impl Sealed for MemRecipient {}
+
+impl PackRecipient for MemRecipient {
+    fn close_file(self: Box<Self>) -> Result<Utf8PathBuf> {
+        Ok(Utf8PathBuf::new())
+    }
+}
